@@ -30,6 +30,8 @@ DOCS = {
     # code points at the edges of the permitted ranges, and a name that grows when normalised, in every kind of name
     'edge-names': [('block', 'b\ufdf0', [('item', '_\ufdf0', C('1')), ('frame', '\ufdcff\U00010000', [('item', '_\u00df\u00df', C('2'))]),
                                         ('loop', ['_x\ufffd', '_\ud7ff\ue000'], [[C('3'), T(('\ufdf0 k', C('4')))]])])],
+    # one loop column holding tables / lists of different shapes in consecutive packets (the parser recycles its value objects)
+    'composite-column': [('block', 'b1', [('loop', ['_t', '_n'], [[T(('a', C('1')), ('b', C('2'))), C('1')], [T(('c', C('3'))), L(C('x'), C('y'))], [T(), L()], [UNK, NA]])])],
     'three-blocks': [('block', 'b1', [('item', '_a', C('1'))]), ('block', 'b2', [('item', '_a', C('2'))]), ('block', 'b3', [('item', '_a', C('3'))])],
 }
 COMMENTED = ('frames', 'loop2x2')
